@@ -161,7 +161,8 @@ fn vp_native_head_hostile_inputs_no_panic_body() {
 #[test]
 fn vp_native_head_roundtrip_small() { watched(vp_native_head_roundtrip_small_body); }
 fn vp_native_head_roundtrip_small_body() {
-    let names = ["X-A", "x-b", "Set-Cookie", "Transfer-Encoding"];
+    // field names over the whole token alphabet (RFC 9110 5.6.2), not only letters, digits and '-'
+    let names = ["X-A", "x-b", "Set-Cookie", "Transfer-Encoding", "x_under_score", "A^b", "!#$%&'*+-.^_`|~09Az"];
     let values: [&[u8]; 12] = [b"v", b"", b"a b", b"\xc3\xa9", b"a\n b", b"  padded  ", b"1, 2", b"\n foo", b"foo\n", b" \n ", b"\n\tfoo \n bar\n", b"a\n\nb"];
     let mut cases = 0u64;
     for status in [100u16, 200, 404, 599, 999] {
